@@ -393,6 +393,7 @@ theorem notify_frame (c : Cfg) (s : Sys) (v : Option TState) (r : Bool) :
         · simp only [if_true]
           obtain ⟨a, b, d, e, f, g, h, i, _, _⟩ := react_frame c s st
           exact ⟨a, b, d, e, f, g, h, i⟩
+      | starting => simp
       | holding _ => simp
       | armed => simp
       | gone => simp
